@@ -234,14 +234,15 @@ def run_check(a, prop, spec, workdir, seed, t_start):
     # ---- verdict
     lines = []
     new_viol = 0
-    os.makedirs(os.path.join(VERIF, 'replays', prop), exist_ok=True)
+    RDIR = os.environ.get('VP_REPLAY_DIR', os.path.join(VERIF, 'replays'))
+    os.makedirs(os.path.join(RDIR, prop), exist_ok=True)
     known_hit = {}
     for key, v in confirmed:
         k = match_known(known, prop, v)
         if k is not None:
             known_hit.setdefault(k['id'], (k, v)); continue
         h = hashlib.sha1(json.dumps([v['entry'], v['kind'], v['msg'], v['site']]).encode()).hexdigest()[:10]
-        path = os.path.join(VERIF, 'replays', prop, '%s_%s.json' % (v['entry'], h))
+        path = os.path.join(RDIR, prop, '%s_%s.json' % (v['entry'], h))
         json.dump({'property': prop, 'group': bykey[key]['group'], 'entry': v['entry'], 'params': v['params'], 'inputs': v['inputs'], 'kind': v['kind'],
                    'msg': v['msg'], 'site': v['site'], 'native': v['native'], 'native_output': v.get('native_output', '')}, open(path, 'w'), indent=1)
         lines.append("VIOLATION property=%s replay=%s" % (prop, path))
@@ -291,11 +292,12 @@ def run_check(a, prop, spec, workdir, seed, t_start):
                                                            'engine-internal models of malloc/free/realloc/memcpy/memmove/memset/memcmp/strlen/strcmp/strchr'],
         'wall_s': round(time.time() - t_start, 1), 'violations': new_viol,
     }
-    os.makedirs(os.path.join(VERIF, 'evidence'), exist_ok=True)
-    json.dump(ev, open(os.path.join(VERIF, 'evidence', prop + '.json'), 'w'), indent=1)
+    EDIR = os.environ.get('VP_EVIDENCE_DIR', os.path.join(VERIF, 'evidence'))
+    os.makedirs(EDIR, exist_ok=True)
+    json.dump(ev, open(os.path.join(EDIR, prop + '.json'), 'w'), indent=1)
     print("%s %s: %d instances, %d paths, %d queries (%.1fs solver), %d path models validated natively, build %.0fs, wall %.0fs" %
           (prop, tier, len(insts), total_paths, total_q, sum(g['tq'] for g in agg.values()), validated, build_s, time.time() - t_start))
-    if a.v or errors or incon or unconfirmed or val_mismatch or vacuous:
+    if a.v or errors or incon or unconfirmed or val_mismatch or vacuous or undecided:
         for e in errors[:5]: print("ENGINE-ERROR", e)
         for m in incon[:10]: print("INCONCLUSIVE", m)
         for k, v in unconfirmed[:10]: print("UNCONFIRMED", k, v['kind'], v['msg'], v['site'], 'native=' + v['native'], [x[2] for x in v['inputs']][:24])
@@ -303,7 +305,7 @@ def run_check(a, prop, spec, workdir, seed, t_start):
         for k in vacuous[:10]: print("VACUOUS", k)
     if new_viol:
         return 1
-    if errors or unconfirmed or val_mismatch or vacuous or timed_out:
+    if errors or unconfirmed or val_mismatch or vacuous or timed_out or undecided:
         return 3
     return 0
 
